@@ -5,6 +5,7 @@ Started by sim.driver in a fresh interpreter with a pinned PYTHONHASHSEED.
 from __future__ import annotations
 
 import faulthandler
+import gc
 import importlib
 import json
 import os
@@ -147,6 +148,10 @@ def worker_main(args):
         while i < max_runs and time.monotonic() - t0 < budget:
             seed = derive_seed(args["base_seed"], pid, args["worker"], i)
             i += 1
+            if i % 20 == 0 and not getattr(mod, "GC_EACH_RUN", False):
+                # the cyclic GC is disabled while runs execute (sim/pin); reclaim the cycles of
+                # earlier runs between runs so that long (thorough) batches do not grow without bound
+                gc.collect()
             tape = Tape(seed)
             out = run_tape(mod, cfg, tape)
             res["evaluations"] += 1
